@@ -74,6 +74,17 @@ def workflows():
         {'stage0.S0': m(replica_of='S'), 'stage0.S1': m(replica_of='S'), 'stage0.N': m(),
          'stage0.Agg': m(producers=['stage0.S0', 'stage0.S1', 'stage0.N'], aggregate=True),
          'stage0.T': m(producers=['stage0.Agg'])})
+    add('observer-2subj', [comp('A'), comp('S1'), comp('S2', ['A:ref']), obs('Obs', ['S1:ref', 'S2:ref'])],
+        {'stage0.A': m(), 'stage0.S1': m(), 'stage0.S2': m(producers=['stage0.A']),
+         'stage0.Obs': m(producers=['stage0.S1', 'stage0.S2'], repeat=True)})
+    add('xobs-mixed', [comp('P'), comp('S', stage=1), obs('Obs', ['stage0.P:ref', 'S:ref'], stage=1)],
+        {'stage0.P': m(), 'stage1.S': m(1), 'stage1.Obs': m(1, ['stage0.P', 'stage1.S'], repeat=True)})
+    add('xreplica-agg', [comp('S', wa={'replicate': 2}), comp('Agg', ['stage0.S:ref'], stage=1, wa={'aggregate': True}),
+                         comp('T', ['Agg:ref'], stage=1)],
+        {'stage0.S0': m(replica_of='S'), 'stage0.S1': m(replica_of='S'),
+         'stage1.Agg': m(1, ['stage0.S0', 'stage0.S1'], aggregate=True), 'stage1.T': m(1, ['stage1.Agg'])})
+    add('agg-plain', [comp('P'), comp('Agg', ['P:ref'], wa={'aggregate': True}), comp('T', ['Agg:ref'])],
+        {'stage0.P': m(), 'stage0.Agg': m(producers=['stage0.P'], aggregate=True), 'stage0.T': m(producers=['stage0.Agg'])})
     return W
 
 
@@ -140,7 +151,7 @@ def reference_outcome(meta, script, attrs, stages_run):
         resub = 0
         i = 0
         while True:
-            r = seq[min(i, len(seq) - 1)]
+            r = seq[min(i, len(seq) - 1)].rstrip('!')
             i += 1
             if r == 'Success':
                 state[n] = 'finished'
@@ -181,6 +192,9 @@ REASONS = {
     'XS': ['SubmissionFailed', 'Success'],
     'UF': ['UnknownIssue'],
     'RK': ['ResourceExhausted', 'KnownIssue'],  # restart, then shutdown (shutdownOn [KnownIssue])
+    'TS': ['SubmissionFailed!', 'Success'],      # a task object that exits with SubmissionFailed (LSF/k8s style), then success
+    'X6': ['SubmissionFailed'] * 6 + ['Success'],  # six failed submissions in a row exceed the cap of five -> failed
+    'T6': ['SubmissionFailed!'] * 6 + ['Success'],
 }
 SHUTDOWN_LABELS = ('KS', 'RK')
 
@@ -189,7 +203,7 @@ def make_scenarios(tier):
     """Deterministic list of scenario dicts: {'id', 'wf', 'labels': {node: label}, 'dur': {node: seconds}}"""
     W = workflows()
     out = []
-    quick_labels = ['S', 'KS', 'KF', 'RS', 'XS']
+    quick_labels = ['S', 'KS', 'KF', 'RS', 'XS', 'TS', 'X6', 'T6']
     all_labels = list(REASONS)
     for wname, (doc, meta) in W.items():
         nodes = [n for n in meta if not meta[n]['repeat']]
@@ -250,7 +264,7 @@ def build(scn):
     for n in meta:
         seq = mscript.get(n, ['Success'])
         d = scn['dur'].get(n, 0.0)
-        script[n] = [['LaunchOSError' if r == 'SubmissionFailed' else r, d] for r in seq]
+        script[n] = [['LaunchOSError' if r == 'SubmissionFailed' else r.rstrip('!'), d] for r in seq]
     stages = sorted({meta[n]['stage'] for n in meta})
     return Scenario(doc, script=script, name=scn['wf']), meta, mscript, attrs, stages
 
